@@ -325,7 +325,7 @@ func TestVerifServerWritePaths(t *testing.T) {
 						}
 					}
 					acked, detail := f.vDoUpload(t, rng, u, web)
-					rec.Op(fmt.Sprintf("# %s %s %s n=%d -> ack=%v (%s)", mode, p, k, n, acked, detail), "")
+					rec.Note(fmt.Sprintf("%s %s %s n=%d -> ack=%v (%s)", mode, p, k, n, acked, detail))
 					rec.Count(fmt.Sprintf("%s.%s.ack=%v", p, k, acked))
 					rec.Distinct(fmt.Sprintf("%s:%s:%s:%d", mode, p, k, n))
 					rp := map[string]interface{}{"mode": mode, "path": p, "kind": k, "size": n, "detail": detail}
